@@ -10,6 +10,8 @@
 #ifndef __GIVARO_montgomery_ruint_H
 #define __GIVARO_montgomery_ruint_H
 
+#include <cmath>
+#include <type_traits>
 #include "recint/ruint.h"
 #include "recint/rmgmodule.h"
 
@@ -123,16 +125,41 @@ namespace Givaro
         { return x = 0; }
         template<typename T> Element& init(Element& r, const T& a) const
         {
-            reduce(r, Caster<Element>((a < 0)? -a : a));
+            return _init(r, a, std::integral_constant<int, std::is_floating_point<T>::value ? 1 :
+                               ((std::is_integral<T>::value && sizeof(T) <= 8) ? 2 : 0)>());
+        }
+        Element& init(Element& r, const Integer& a) const
+        {
+            // canonical remainder in [0,p) taken over Z: the conversion Integer -> Element keeps
+            // only the low 2^K bits of a value that does not fit
+            Integer t;
+            Integer::mod(t, a, Integer(_p));
+            r = Caster<Element>(t);
+            return to_mg(r);
+        }
+    private:
+        // integer-valued floating source: exact through Integer
+        template<typename T> Element& _init(Element& r, const T& a, std::integral_constant<int, 1>) const
+        {
+            if (!std::isfinite(a)) return r = zero;
+            return init(r, Integer(static_cast<double>(a)));
+        }
+        // machine integer: magnitude in uint64_t (-a overflows for the minimum of the type)
+        template<typename T> Element& _init(Element& r, const T& a, std::integral_constant<int, 2>) const
+        {
+            const uint64_t ua = (a < 0) ? uint64_t(0) - static_cast<uint64_t>(a) : static_cast<uint64_t>(a);
+            reduce(r, Caster<Element>(ua));
             if (a < 0) negin(r);
             return to_mg(r);
         }
-        Element& init(Element& r, const Integer& a) const
+        // anything else (ruint, rint, ...)
+        template<typename T> Element& _init(Element& r, const T& a, std::integral_constant<int, 0>) const
         {
             reduce(r, Caster<Element>((a < 0)? -a : a));
             if (a < 0) negin(r);
             return to_mg(r);
         }
+    public:
 
         Element& assign (Element& x, const Element& y) const
         { return x = y; }
